@@ -7,6 +7,7 @@ package main
 import (
 	"fmt"
 	"go/token"
+	"go/types"
 	"strings"
 
 	"golang.org/x/tools/go/ssa"
@@ -456,4 +457,228 @@ func rulePAN10(p *Program) *RuleResult {
 	}
 	r.floor("value_sink_sites", 6)
 	return r
+}
+
+// ---------- PAN12 nil dereference classes ----------
+
+// mayReturnNilAt: fn has a return whose idx-th result is a nil constant;
+// pairedWithErr: every such return carries a non-nil error as last result.
+// nilOnlyWithFalseOK: every return whose idx-th result is nil has the constant false as its last (bool) result.
+func nilOnlyWithFalseOK(fn *ssa.Function, idx int) bool {
+	found := false
+	for _, b := range fn.Blocks {
+		ret, ok := b.Instrs[len(b.Instrs)-1].(*ssa.Return)
+		if !ok || idx >= len(ret.Results) {
+			continue
+		}
+		c, ok := ret.Results[idx].(*ssa.Const)
+		if !ok || !c.IsNil() {
+			continue
+		}
+		found = true
+		last, ok := ret.Results[len(ret.Results)-1].(*ssa.Const)
+		if !ok || last.Value == nil || last.Value.ExactString() != "false" {
+			return false
+		}
+	}
+	return found
+}
+
+// trueGuarded: `at` is only reachable when the bool value v is true.
+func trueGuarded(fn *ssa.Function, v ssa.Value, at ssa.Instruction) bool {
+	for _, b := range fn.Blocks {
+		ifi, ok := b.Instrs[len(b.Instrs)-1].(*ssa.If)
+		if !ok {
+			continue
+		}
+		cond := ifi.Cond
+		edge := 0
+		if u, ok := cond.(*ssa.UnOp); ok && u.Op == token.NOT {
+			cond, edge = u.X, 1
+		}
+		if cond == v && edgeDominates(b, edge, at.Block()) {
+			return true
+		}
+	}
+	return false
+}
+
+func mayReturnNilAt(fn *ssa.Function, idx int) (may bool, pairedWithErr bool) {
+	pairedWithErr = true
+	for _, b := range fn.Blocks {
+		ret, ok := b.Instrs[len(b.Instrs)-1].(*ssa.Return)
+		if !ok || idx >= len(ret.Results) {
+			continue
+		}
+		c, ok := ret.Results[idx].(*ssa.Const)
+		if !ok || !c.IsNil() {
+			continue
+		}
+		may = true
+		last := ret.Results[len(ret.Results)-1]
+		if len(ret.Results) < 2 || !isErrorType(last.Type()) {
+			pairedWithErr = false
+			continue
+		}
+		if lc, ok := last.(*ssa.Const); ok && lc.IsNil() {
+			pairedWithErr = false
+		}
+	}
+	return
+}
+
+func rulePAN12(p *Program) *RuleResult {
+	r := newResult("PAN12")
+	fns := apiRepoFuncs(p, r)
+	r.count("functions", len(fns))
+	for _, fn := range fns {
+		for _, b := range fn.Blocks {
+			for _, ins := range b.Instrs {
+				// (a) x.F.G where x.F is a message pointer loaded from a proto message field
+				if fa, ok := ins.(*ssa.FieldAddr); ok {
+					ld, ok := fa.X.(*ssa.UnOp)
+					if !ok || ld.Op != token.MUL {
+						continue
+					}
+					inner, ok := ld.X.(*ssa.FieldAddr)
+					if !ok || !isProtoMessagePtr(inner.X.Type()) || !isProtoMessagePtr(ld.Type()) {
+						continue
+					}
+					r.count("chained_field_sites", 1)
+					key := short(fn) + "|" + typeShort(inner.X.Type()) + "." + fieldName(inner) + "." + fieldName(fa)
+					if nilGuarded(fn, ld, ins) {
+						r.ok(key, "field of a nested message pointer, nil-tested", p.instrPos(ins), "dominating nil test of the loaded pointer", true)
+					} else {
+						r.bad(key, "direct field access through the message pointer "+fieldName(inner)+" of "+typeShort(inner.X.Type())+" without a nil test", p.instrPos(ins),
+							"an element whose sub-element is absent (nil) crashes the evaluation; the generated getters are nil-safe, direct field access is not")
+					}
+				}
+				// (b) results of in-repo functions that may return nil, used as a receiver
+				call, ok := ins.(*ssa.Call)
+				if !ok {
+					continue
+				}
+				sc := call.Common().StaticCallee()
+				if sc == nil || !inRepoFn(sc) || len(sc.Blocks) == 0 {
+					continue
+				}
+				nres := sc.Signature.Results().Len()
+				for idx := 0; idx < nres; idx++ {
+					rt := sc.Signature.Results().At(idx).Type()
+					if !isNilable(rt) || isErrorType(rt) {
+						continue
+					}
+					if _, isSlice := rt.Underlying().(*types.Slice); isSlice {
+						continue
+					}
+					if _, isMap := rt.Underlying().(*types.Map); isMap {
+						continue
+					}
+					may, paired := mayReturnNilAt(sc, idx)
+					if !may {
+						continue
+					}
+					var v ssa.Value = call
+					var errv ssa.Value
+					if nres > 1 {
+						v = nil
+						for _, ref := range *call.Referrers() {
+							if ex, ok := ref.(*ssa.Extract); ok {
+								if ex.Index == idx {
+									v = ex
+								}
+								if ex.Index == nres-1 {
+									errv = ex
+								}
+							}
+						}
+					}
+					if v == nil {
+						continue
+					}
+					// uses as a receiver
+					for _, du := range derefUses(v) {
+						use := du.ins
+						r.count("nilable_result_uses", 1)
+						key := short(fn) + "|" + short(sc) + " result used at " + useDescr(use)
+						switch {
+						case nilGuarded(fn, v, du.at) || nilGuarded(fn, du.recv, use):
+							r.ok(key, "nilable result of "+short(sc)+" is nil-tested before use", p.instrPos(use), "dominating nil test", true)
+						case paired && errv != nil && valueNilGuarded(fn, errv, du.at):
+							r.ok(key, "nilable result of "+short(sc)+" used only after its error was tested nil", p.instrPos(use), "the callee returns nil only together with a non-nil error", true)
+						case errv != nil && isBool(errv.Type()) && nilOnlyWithFalseOK(sc, idx) && trueGuarded(fn, errv, du.at):
+							r.ok(key, "nilable result of "+short(sc)+" used only after its ok result was tested true", p.instrPos(use), "the callee returns nil only together with ok == false", true)
+						default:
+							r.bad(key, "result of "+short(sc)+" (which can be nil) is dereferenced without a nil test", p.instrPos(use), "nil dereference when the callee returns nil")
+						}
+					}
+				}
+			}
+		}
+	}
+	r.floor("functions", 250)
+	return r
+}
+
+// derefUses: instructions that dereference v (method invoke on it, field access through it).
+type derefUse struct {
+	ins  ssa.Instruction
+	recv ssa.Value
+	at   ssa.Instruction // where the value must be known non-nil (the phi's incoming edge for merged values)
+}
+
+func derefUses(v ssa.Value) []derefUse {
+	var out []derefUse
+	seen := map[ssa.Value]bool{}
+	var walk func(x ssa.Value, depth int, at ssa.Instruction)
+	loc := func(use ssa.Instruction, at ssa.Instruction) ssa.Instruction {
+		if at != nil {
+			return at
+		}
+		return use
+	}
+	walk = func(x ssa.Value, depth int, at ssa.Instruction) {
+		if depth > 3 || seen[x] || x.Referrers() == nil {
+			return
+		}
+		seen[x] = true
+		for _, ref := range *x.Referrers() {
+			switch y := ref.(type) {
+			case *ssa.Call:
+				if y.Common().IsInvoke() && y.Common().Value == x {
+					out = append(out, derefUse{y, x, loc(y, at)})
+				}
+			case *ssa.FieldAddr:
+				if y.X == x {
+					out = append(out, derefUse{y, x, loc(y, at)})
+				}
+			case *ssa.ChangeInterface:
+				walk(y, depth+1, at)
+			case *ssa.Phi:
+				// the value enters the phi along one edge: it must be non-nil there
+				for i, e := range y.Edges {
+					if e == x {
+						pred := y.Block().Preds[i]
+						walk(y, depth+1, pred.Instrs[len(pred.Instrs)-1])
+					}
+				}
+			case *ssa.UnOp:
+				if y.Op == token.MUL && y.X == x {
+					out = append(out, derefUse{y, x, loc(y, at)})
+				}
+			}
+		}
+	}
+	walk(v, 0, nil)
+	return out
+}
+
+func useDescr(ins ssa.Instruction) string {
+	switch y := ins.(type) {
+	case *ssa.Call:
+		return "." + y.Common().Method.Name() + "()"
+	case *ssa.FieldAddr:
+		return "." + fieldName(y)
+	}
+	return "deref"
 }
